@@ -6,6 +6,7 @@ unset GOFLAGS GOWORK
 for id in $ids; do
   sub=.
   grep -q "^package ast" /verif/seeded/$id/demo_test.go && sub=ast
+  [ -f /verif/seeded/$id/DEMO_DIR ] && sub=$(cat /verif/seeded/$id/DEMO_DIR)
   cp /verif/seeded/$id/confirm.log /tmp/confirm.keep.$id 2>/dev/null
   /verif/tools/confirm_seed.sh $id $sub quick >/dev/null 2>&1
   l=/verif/seeded/$id/confirm.log
